@@ -19,7 +19,8 @@ RULE = (
     "hook logging every file opened for writing / mkdir / rename / remove / chdir. Default path: nothing printed, nothing "
     "written. With show/save_report: no exception, identical return value, only the documented report file in cwd (iff "
     "requested), stdout non-empty for show. One fixed workload is additionally run in two CHILD interpreters (UTF-8 locale vs "
-    "LC_ALL=C with UTF-8 mode and locale coercion off) and must give identical, error-free results. Non-trivial: show/save_report cases whose result is not a hex string; distinct "
+    "LC_ALL=C with UTF-8 mode and locale coercion off), and in a third with every warning turned into an error, and must give "
+    "identical, error-free results. Non-trivial: show/save_report cases whose result is not a hex string; distinct "
     "by (text, bg, settings, flags)."
 )
 ASSUMPTIONS = ["sys.addaudithook sees every Python-level file open; fd-level dup2 capture sees print and rich output",
@@ -162,29 +163,7 @@ def strategy(draw):
     return case
 
 
-def env_items(shard, nshards):
-    return [{"which": "api"}] if shard == 0 else []
-
-
-def env_judge(case):
-    """The same small workload in two child interpreters: UTF-8 locale vs. the C locale (UTF-8 mode and locale coercion off).
-    Previews and reports must neither raise nor differ: nothing may depend on the platform's default text encoding."""
-    from vlib import envleg
-    from vlib.runner import HarnessError
-
-    ref = envleg.run_child(case["which"], False)
-    if "__crash__" in ref:
-        raise HarnessError(f"environment leg crashed under the UTF-8 locale: {ref['__crash__']}")
-    if ref.get("errors"):
-        raise Violation("preview-or-report-fails", f"under the UTF-8 locale: {ref['errors'][:2]}")
-    c = envleg.run_child(case["which"], True)
-    if "__crash__" in c:
-        raise Violation("locale-dependent:crash", f"the workload crashes under LC_ALL=C (preferred encoding ASCII): {c['__crash__'][-300:]}")
-    if c.get("errors"):
-        raise Violation("locale-dependent:preview-or-report", f"under LC_ALL=C (preferred encoding {c.get('preferred_encoding')}): {c['errors'][:2]}")
-    if c["results"] != ref["results"]:
-        raise Violation("locale-dependent:results", "results differ between the UTF-8 and the C locale")
-    return {"nt": ("env", case["which"], c.get("preferred_encoding")), "cls": ["c-locale-child"], "sample": {"env": "LC_ALL=C PYTHONUTF8=0 PYTHONCOERCECLOCALE=0", "calls": len(c["results"])}}
+from vlib.envleg import api_env_judge as env_judge, env_items  # noqa: E402
 
 
 def subchecks(tier):
